@@ -439,6 +439,12 @@ func typesSource(c *spec.Case) string {
 	sb.WriteString(typeDecls(c, ""))
 	sb.WriteString(compositeHelpers(c))
 	for i := range c.Provs {
+		if c.Provs[i].CtxAlias {
+			sb.WriteString("// Ctx is how some providers spell the context they take.\ntype Ctx = context.Context\n\n")
+			break
+		}
+	}
+	for i := range c.Provs {
 		if c.Provs[i].ErrAlias {
 			sb.WriteString("// Failure is how some providers spell their error result.\ntype Failure = error\n\n")
 			break
@@ -541,6 +547,9 @@ func providerSig(c *spec.Case, p *spec.Prov, from string) (params, results strin
 	var ps []string
 	for i, t := range p.Params {
 		ex := c.ExprParam(t, from)
+		if t == spec.CtxType && p.CtxAlias {
+			ex = "Ctx"
+		}
 		if p.Variadic && i == len(p.Params)-1 {
 			ex = "..." + c.Expr(c.T(t).Elem, from)
 		}
